@@ -1,8 +1,10 @@
 SPECIFICATION Spec
 CONSTANTS
   Hash <- SHA1
-  SrvG = 7
-  SrvN <- WoWN
+  SrvG = 2
+  NNat = 227
+  SrvN <- MCSrvN
+  Creds <- MCCreds1
+  Salts = {1}
 INVARIANT Inv
-POSTCONDITION PostCondition
 CHECK_DEADLOCK FALSE
